@@ -1,6 +1,7 @@
 """C17: TVM stack values round-trip, follow the VmStack schema, and serialising does not consume them."""
 from ..gen import cells as G
 from ..gen import vmvals as V
+from ..translate import arith2
 
 SPEC = dict(
     manifest=dict(
@@ -19,14 +20,18 @@ SPEC = dict(
              'model with the pre-fix code path exhibits F20). c17_roundtrip_fields is the field-level statement underneath (intN/uintN fields and '
              'VmCellSlice records are read back exactly). Sampling is used only to tie the model to the code: on the library alone '
              '(deserialize(serialize(vs)) == vs by content, hash == an independent Python transcription of the schema, serialize twice, deep '
-             'snapshot of the caller\'s values) and against the Lean model (cell hash, post-state, parsed stack, parser on damaged input).',
+             'snapshot of the caller\'s values) and against the Lean model (cell hash, post-state, parsed stack, parser on damaged input). '
+             'The int64 selection test of VmStackValue.serialize (`-2**63 <= value < 2**63`) and the two window tests of VmCellSlice.deserialize '
+             'are re-translated from vm_stack.py on every run (Generated/VmStackTests.lean) and proved for EVERY integer to be the model\'s tests '
+             '(c17_src_tests); the hand model chooses tinyint / int257 by exactly the regenerated test (c17_src_model_int).',
         level_note='Full proof of all three clauses over the model. The parser model carries a recursion budget (one unit per nested call; Python has '
                    'none): the round trip holds for every budget >= fuelL vs, an explicit bound linear in the size of the stack (the driver runs with 10^8). Trusted: Model/VmStack.lean mirrors vm_stack.py by hand '
                    '(Python lists stored last-first); '
                    'Spec/Tlb/VmStack.lean says what block.tlb says; the save list (HashmapE 4 VmStackValue) is an opaque dictionary root cell '
                    'in model and spec (HashMap codec is C09/C10); cell construction is a parameter (mk/view/ord) with the laws view(mk b r) = (b, r), '
                    'ord(mk b r); the post-state model describes successful calls only; model = code is sampled differential testing.',
-        technique='Lean 4 proof (hand model) + differential correspondence with the library'),
+        technique='Lean 4 proof (hand model) + differential correspondence with the library + source-regenerated range tests'),
+    translators=[('vm_stack.py tinyint / cell-slice window tests->Generated/VmStackTests.lean', arith2.regenerator('VmStackTests'))],
     design_ref='DESIGN.md §6 C17',
     rule='stacks of depth 0..50 (thorough 0..2000 and the cell-depth limit 1021..1024) of null / ints at +-2^63, +-(2^63+-1), +-2^256 and random '
          'magnitudes / cells / slices with partly consumed bits and refs / builders / tuples nested to depth 6 with lengths 0..5, 255, 256 / all ten '
@@ -36,7 +41,8 @@ SPEC = dict(
     trusted_base=['Model/VmStack.lean mirrors tlb/vm_stack.py by hand (BOp/SOp state functions)',
                   'Spec/Tlb/VmStack.lean transcribes block.tlb (VmStack .. VmCont, VmControlData); VmSaveList content opaque',
                   'harness/gen/vmvals.py: descriptions, canonical form, independent schema encoder; gen/cells.py spec cell hash',
-                  'HashMap (HashmapE 4) serialisation of save lists is taken from the library (C09/C10)'],
+                  'HashMap (HashmapE 4) serialisation of save lists is taken from the library (C09/C10)',
+                  'harness/translate/pyarith.py + arith.py/arith2.py (Python comparisons -> Lean) for the c17_src_* theorems'],
     assumptions=['correspondence is sampled differential testing',
                  'Python recursion limit raised to 40000 in the harness (a runtime limit, not part of the model)'],
 )
@@ -303,6 +309,20 @@ def api_level(ctx, cx):
                 ctx.fail(f'mutated:{name}', f'{name}.serialize consumed its argument', {'value': d, 'entry': name}, V.canon_val(v, []), before)
 
 
+def src_search(ctx, cx):
+    """Search mode only: the integers on which the regenerated int64 test (Generated/VmStackTests.lean) differs from the schema's,
+    each serialised alone, nested in a tuple and under another value (schema encoding + round trip are checked by check_stack).
+    True = a concrete failing input was found."""
+    found = arith2.search_points(ctx, ['VmStackTests'])
+    n0 = len(ctx.failures)
+    for pt in (found.get('tinyIntFits') or [])[:12]:
+        v = pt['value']
+        if -2 ** 256 <= v < 2 ** 256:
+            check_stack(ctx, cx, [['i', v]], 'src-int')
+            check_stack(ctx, cx, [['i', 7], ['t', [['i', v], ['n']]], ['i', v]], 'src-int-nested')
+    return len(ctx.failures) > n0
+
+
 def builder_histories(ctx):
     """a Builder on the stack belongs to the caller, who may go on writing to it between two serialisations: every
     serialisation must show the builder's content AT THAT MOMENT (nothing remembered from the previous call)"""
@@ -345,8 +365,10 @@ def builder_histories(ctx):
 
 
 def run(ctx):
-    builder_histories(ctx)
     cx = V.Ctx()
+    if ctx.search and src_search(ctx, cx):
+        return
+    builder_histories(ctx)
     directed(ctx, cx)
     random_stacks(ctx, cx)
     foreign(ctx, cx)
